@@ -1079,7 +1079,8 @@ impl BuiltInFunction {
 
                 let maybe_existing_value = map.insert(key.clone(), value.clone())?;
                 Ok((
-                    Some(Primitive::Optional(maybe_existing_value.map(Box::new))),
+                    // a present optional is the bare value
+                    Some(maybe_existing_value.unwrap_or(Primitive::Optional(None))),
                     None,
                 ))
             }
@@ -1119,7 +1120,11 @@ impl BuiltInFunction {
                 };
 
                 Ok((
-                    Some(Primitive::Optional(map.remove(key.clone())?.map(Box::new))),
+                    // a present optional is the bare value
+                    Some(
+                        map.remove(key.clone())?
+                            .unwrap_or(Primitive::Optional(None)),
+                    ),
                     None,
                 ))
             }
